@@ -435,6 +435,7 @@ func withExtraTips(t *rapid.T, m *ref.Node, k int) *ref.Node {
 }
 
 func checkCli(c CliCase) error {
+	compText := ""
 	if !cli.Available() {
 		return fmt.Errorf("harness: gotree binary not built")
 	}
@@ -495,7 +496,8 @@ func checkCli(c CliCase) error {
 			}
 			comp += ");\n"
 		}
-		args = append(args, "-c", cli.Write(dir, "comp.nw", comp))
+		compText = comp
+		args = append(args, "-c", cli.WriteIn(dir, "comp.nw", comp))
 	}
 	if c.Mode == "random" {
 		args = append(args, "--random", strconv.Itoa(c.randomK()), "--seed", strconv.Itoa(100+len(c.Names)))
@@ -515,12 +517,12 @@ func checkCli(c CliCase) error {
 	// the input stream on stdin, in a file, in a gzip file or as a Nexus document
 	extra, stdin, infiles, used := cli.Present(cli.InModes[(len(c.Names)+len(input))%len(cli.InModes)], input, "-i")
 	for n, content := range infiles {
-		cli.Write(dir, n, content)
+		cli.WriteIn(dir, n, content)
 	}
 	if cli.IsNexus(used) && c.Mode == "comp" {
 		// --format applies to the compared tree as well
-		d, _ := cli.ToNexus(cli.Read(dir, "comp.nw"), false)
-		cli.Write(dir, "comp.nw", d)
+		d, _ := cli.ToNexus(compText, false)
+		cli.WriteIn(dir, "comp.nw", d)
 	}
 	args = append(args, extra...)
 	r := cli.Run(dir, stdin, args...)
